@@ -174,6 +174,8 @@ func (l *Lexer) Split() []*Token {
 				}
 				ret = append(ret, token)
 				tokLen = 0
+				tokStartPos = i + 1
+				tokStart = i + 1
 			} else {
 				tokLen++
 			}
@@ -193,6 +195,8 @@ func (l *Lexer) Split() []*Token {
 				}
 				ret = append(ret, token)
 				tokLen = 0
+				tokStartPos = i + 1
+				tokStart = i + 1
 			} else {
 				tokLen++
 			}
